@@ -308,6 +308,18 @@ pub fn run(args: &Args, out: &mut Out) {
                 }
             }
         }
+        // many objects (RFC 4884 sets no limit on their number): 31..100 small objects, an MPLS stack as the last one, both modes
+        for compliant in [true, false] {
+            for nobj in [31usize, 32, 33, 34, 40, 64, 100] {
+                let mut objs: Vec<Obj> = (0..nobj - 1).map(|_| { let pl = 4 * rng.below(2) as usize; Obj::Other(2 + rng.below(250) as u8, rng.next() as u8, rng.bytes(pl)) }).collect();
+                objs.push(Obj::Mpls(1, random_stack(&mut rng, 2, true)));
+                let orig = rng.bytes(if compliant { 128 } else { 56 });
+                let kind = kinds[nobj % 2];
+                let fixed = fixed_for(&mut rng, v6, kind);
+                built(v6, kind, "E", &fixed, &orig, &objs, compliant, out);
+                n_built += 1;
+            }
+        }
         // degenerate: compliant with an empty quotation (length attribute 0)
         let fixed = fixed_for(&mut rng, v6, "te");
         built(v6, "te", "E", &fixed, &[], &random_objs(&mut rng, 2), true, out);
